@@ -380,6 +380,7 @@ func judgeWait(r *vrun.Run, kind string, considerRA bool, min, max, n, w int64, 
 			hot("apply_hint_ignored_on_other_status")
 		}
 		if eff == "negative-wait" && linearUnrepresentable {
+			pre = "no-server-hint"
 			extra = map[string]string{"range": "linear-bounds-not-representable"}
 		}
 		return eff, pre, extra
@@ -406,7 +407,7 @@ func judgeWait(r *vrun.Run, kind string, considerRA bool, min, max, n, w int64, 
 			case "int-in-range", "int-overflow", "http-date":
 			default:
 				if eff == "negative-wait" && linearUnrepresentable {
-					pre = "no-usable-retry-after"
+					pre = "no-server-hint"
 					extra = map[string]string{"range": "linear-bounds-not-representable"}
 				}
 			}
@@ -755,7 +756,7 @@ func runDateCrossing(r *vrun.Run) {
 }
 
 func runApply(r *vrun.Run) {
-	defer runDateCrossing(r)
+	runDateCrossing(r)
 	cases := buildApplyCases(r)
 	r.Obs("apply_cases_built", int64(len(cases)))
 	vrun.Parallel(len(cases), 0, func(i int) {
